@@ -1486,10 +1486,11 @@ def concatenate(
                         start = stop
                     break
 
+            total_length = slices[-1].stop if len(slices) != 0 else 0
             for content in contents:
                 if isinstance(
                     content, (ak.partition.PartitionedArray, ak.layout.Content)
-                ) and len(content) != start:
+                ) and len(content) != total_length:
                     raise ValueError(
                         "all arrays must have the same length for concatenate "
                         "in axis > 0" + ak._util.exception_suffix(__file__)
